@@ -52,39 +52,38 @@ def run(ck, F, tier):
 
     # ---- M1: 8PSK modulator table ----------------------------------------------------
     mb = F.body(MOD + "Psk8Modulator::modulate_bits")
-    ms = [m for m in find_matches(mb.value) if len(m["arms"]) >= 4]
-    if len(ms) != 1:
-        raise AnalysisError("modulate_bits: expected one table-like match")
-    m = ms[0]
-    # scrutinee: (b0.is_one(), b1.is_one(), b2.is_one()) in parameter order
-    ev = SymEval(F, mode="real")
-    env = {}
-    for p, nm in zip(mb.params, ("b0", "b1", "b2")):
-        ev.bind(p, var(nm), env)
-    # evaluate leading lets (a = sqrt(0.5))
-    blk = mb.value
-    for s in blk.get("stmts", []):
-        if s["k"] == "let" and "init" in s:
-            ev.bind(s["pat"], ev.eval(s["init"], env), env)
-    scr = ev.eval(m["e"], env)
-    want_scr = ("tuple", [app("num_traits::One::is_one", var(x)) for x in ("b0", "b1", "b2")])
-    scr_ok = repr(scr) == repr(want_scr)
-    ck.inst("M1", "psk8:scrutinee", scr_ok, mb.span, "table is indexed by (b0.is_one(), b1.is_one(), b2.is_one()): %r" % (scr,))
+
+    class BitEval(SymEval):
+        """evaluates on known GF2 arguments: is_one()/is_zero() of the tokens ('gf2', 0|1) fold to booleans"""
+        def call_opaque(self, path, args):
+            if path and len(args) == 1 and isinstance(args[0], tuple) and len(args[0]) == 2 and args[0][0] == "gf2":
+                if path.endswith("One::is_one"):
+                    return ("bool", args[0][1] == 1)
+                if path.endswith("Zero::is_zero"):
+                    return ("bool", args[0][1] == 0)
+            return super().call_opaque(path, args)
+    # the table is read by evaluating modulate_bits on the 8 bit triples (a match on the triple, a lookup in a constant table
+    # indexed by the label b0 b1 b2, .. all give the same 8 points)
     table = {}
-    for key, guard, body, arm in match_rows(m):
-        if not (isinstance(key, tuple) and len(key) == 3 and all(isinstance(x, bool) for x in key)) or guard is not None:
-            ck.fail("M1", "psk8:arm-shape", arm["sp"], "arm pattern %r is not a triple of bool literals" % (key,))
-            continue
-        bits = tuple(int(x) for x in key)
-        xy = complex_xy(ev.eval(body, env))
-        t = point_index(*xy) if xy else None
-        if bits in table:
-            ck.fail("M1", "psk8:dup:%d%d%d" % bits, arm["sp"], "duplicate arm")
-        table[bits] = t
-        exp = DVBS2_8PSK[bits]
-        ck.inst("M1", "psk8:%d%d%d" % bits, t == exp, arm["sp"],
-                "bits %d%d%d -> %s ; DVB-S2: phase %d*pi/4 = %s" % (bits + (("point %r (phase %s*pi/4)" % (xy, t)),) + (exp, POINTS[exp])),
-                {"bits": bits, "phase_index": t})
+    for b0 in (0, 1):
+        for b1 in (0, 1):
+            for b2 in (0, 1):
+                bits = (b0, b1, b2)
+                ev = BitEval(F, mode="real", inline=lambda p: F.private_helper(p, MOD, keep=re.escape(MOD) + r"(maxstar|dot)"))
+                env = {}
+                for p, bv_ in zip(mb.params, bits):
+                    ev.bind(p, ("gf2", bv_), env)
+                try:
+                    v = ev.eval_fn(mb, env)
+                except Unsupported as e:
+                    raise AnalysisError("modulate_bits: cannot evaluate for bits %r: %s" % (bits, e))
+                xy = complex_xy(v)
+                t = point_index(*xy) if xy else None
+                table[bits] = t
+                exp = DVBS2_8PSK[bits]
+                ck.inst("M1", "psk8:%d%d%d" % bits, t == exp, mb.span,
+                        "bits %d%d%d -> %s ; DVB-S2: phase %d*pi/4 = %s" % (bits + (("point %r (phase %s*pi/4)" % (xy, t)) if xy else "unreadable value %r" % (v,),) + (exp, POINTS[exp])),
+                        {"bits": bits, "phase_index": t})
     ck.floor("M1", "8PSK arms", len(table), 8)
     inv = {t: b for b, t in table.items() if t is not None}
     gray = len(inv) == 8 and all(sum(x != y for x, y in zip(inv[t], inv[(t + 1) % 8])) == 1 for t in range(8))
@@ -93,23 +92,18 @@ def run(ck, F, tier):
             "all points are drawn from {(+-1,0),(0,+-1),(+-a,+-a)} with a = sqrt(1/2) exactly (a^2+a^2 = 1)", trivial=not gray)
     # BPSK
     bb = F.body(MOD + "BpskModulator::modulate_bit")
-    e2 = SymEval(F, mode="real")
-    env2 = {}
-    e2.bind(bb.params[0], var("bit"), env2)
-    bv = e2.eval(bb.value, env2)
     s0 = s1 = None
-    a = single_atom(bv)
-    if a and atom_fn(a) == "ite":
-        c, t, e = atom_args(a)
-        if c == app("num_traits::Zero::is_zero", var("bit")):
-            s0 = t
-            a2 = single_atom(e) if isinstance(e, Poly) else None
-            if a2 and atom_fn(a2) == "ite":
-                c2, t2, e2_ = atom_args(a2)
-                if c2 == app("num_traits::One::is_one", var("bit")):
-                    s1 = t2
-            elif isinstance(e, Poly):
-                s1 = e
+    got_b = {}
+    for bitv in (0, 1):
+        e2 = BitEval(F, mode="real")
+        env2 = {}
+        e2.bind(bb.params[0], ("gf2", bitv), env2)
+        try:
+            got_b[bitv] = e2.eval_fn(bb, env2)
+        except Unsupported as e:
+            raise AnalysisError("BpskModulator::modulate_bit: cannot evaluate for bit %d: %s" % (bitv, e))
+    s0 = got_b[0] if isinstance(got_b[0], Poly) else None
+    s1 = got_b[1] if isinstance(got_b[1], Poly) else None
     ck.inst("M1", "bpsk:table", s0 == num(-1) and s1 == num(1), bb.span, "bit 0 -> %r, bit 1 -> %r (required -1, +1)" % (s0, s1))
 
     # ---- M2: demodulator partition --------------------------------------------------
@@ -192,6 +186,32 @@ def run(ck, F, tier):
             why = "symbol i = modulate_bits(cw[3i], cw[3i+1], cw[3i+2]): %r" % (v,)
         else:
             why = "bit iterator is %r" % (desc[:2],)
+    if not ok and len(col) == 0:
+        # explicit form: let mut it = codeword.iter(); while let (Some(b0), Some(b1), Some(b2)) = (it.next(), it.next(), it.next())
+        # { symbols.push(modulate_bits(b0, b1, b2)) }: every round takes the next three bits in order (exactly three next() per round)
+        from ..idioms import PUSH_RX, _is_fresh_vec
+        tw = Tracer(F, PUSH_RX, mode="real")
+        envw = {}
+        for pp, nm in zip(mod.params, ("self", "codeword")):
+            tw.bind(pp, var(nm), envw)
+        try:
+            rv = tw.eval(mod.value, envw)
+            pushes = [e for e in tw.events if e.callee.endswith("::push")]
+            whiles = [n for n in walk(mod.value) if n.get("k") == "while"]
+            if len(pushes) == 1 and len(whiles) == 1 and _is_fresh_vec(rv) and len(pushes[0].loops) == 1 and pushes[0].loops[0][0] == "while":
+                nexts = [x for x in walk(whiles[0]) if x.get("k") == "mcall" and x["m"] == "next"]
+                CWI = ("iterdesc", ("elems", var("codeword")))
+                NX = "std::iter::Iterator::next"
+                n0 = app("payload0", app(NX, CWI))
+                n1 = app("payload0", app(NX, ("iterdesc", ("skip", ("elems", var("codeword")), num(1)))))
+                n2 = app("payload0", app(NX, ("iterdesc", ("skip", ("elems", var("codeword")), num(2)))))
+                want_v = app(MOD + "Psk8Modulator::modulate_bits", n0, n1, n2)
+                # the loop runs only while all three were Some, and nothing else guards the push
+                conds_ok = all(isinstance(g, Poly) for g, p_ in pushes[0].guards) and all(p_ for g, p_ in pushes[0].guards)
+                ok = len(nexts) == 3 and pushes[0].args[1] == want_v and conds_ok
+                why = "every round pushes modulate_bits of the next three bits of the codeword in order (3 next() per round): %r" % (pushes[0].args[1],)
+        except Unsupported as e:
+            why = "modulate: unreadable loop: %s" % e
     ck.inst("M2", "psk8:bit-order-mod", ok, mod.span, why)
     dm = F.body("<%sPsk8Demodulator as %sDemodulator>::demodulate" % (MOD, MOD))
     fm = calls_to(dm.value, r"std::iter::Iterator::flat_map")
